@@ -29,6 +29,17 @@ def _loc(new, old):
     return new
 
 
+def _loc_shallow(new, old):
+    """give `new` (a statement that already carries positions inside) a position if it has none"""
+    if not hasattr(new, "lineno"):
+        new.lineno = getattr(old, "lineno", 1)
+        new.col_offset = getattr(old, "col_offset", 0)
+        new.end_lineno = getattr(old, "end_lineno", new.lineno)
+        new.end_col_offset = getattr(old, "end_col_offset", 0)
+    ast.fix_missing_locations(new)
+    return new
+
+
 def _dict_literals(fn):
     """local name -> Dict node, for names assigned exactly once, from a dict display with constant keys"""
     counts, lits = {}, {}
@@ -159,6 +170,24 @@ class _Desugar(ast.NodeTransformer):
         return n
 
     def visit_Assign(self, st):
+        if len(st.targets) > 1:
+            # a = b = V  ->  a = V; b = V   (V evaluated once: through a temporary unless it is a constant or a pure access path)
+            v = st.value
+            pure = not any(isinstance(x, (ast.Call, ast.Lambda, ast.ListComp, ast.GeneratorExp, ast.DictComp, ast.SetComp, ast.Yield, ast.Await, ast.NamedExpr, ast.List, ast.Dict, ast.Set)) for x in ast.walk(v))
+            out = []
+            if pure:
+                for t in st.targets:
+                    out.append(_loc(ast.Assign(targets=[t], value=copy.deepcopy(v)), st))
+            else:
+                tmp = "_chain%d" % getattr(st, "lineno", 0)
+                out.append(_loc(ast.Assign(targets=[ast.Name(id=tmp, ctx=ast.Store())], value=v), st))
+                for t in st.targets:
+                    out.append(_loc(ast.Assign(targets=[t], value=ast.Name(id=tmp, ctx=ast.Load())), st))
+            res = []
+            for o in out:
+                r = self.visit(o)
+                res += r if isinstance(r, list) else [r]
+            return res
         if len(st.targets) == 1 and isinstance(st.targets[0], (ast.Tuple, ast.List)) and isinstance(st.value, (ast.Tuple, ast.List)) \
                 and len(st.targets[0].elts) == len(st.value.elts) and len(st.value.elts) > 1 \
                 and not any(isinstance(e, ast.Starred) for e in st.targets[0].elts + st.value.elts):
@@ -232,6 +261,165 @@ class _Desugar(ast.NodeTransformer):
             return [_loc(loop, st), _loc(ast.Return(value=default), st)]
         self.generic_visit(st)
         return st
+
+    def visit_AugAssign(self, st):
+        r = self._split_on_ifexp(st)
+        if r is not None:
+            return r
+        self.generic_visit(st)
+        return st
+
+    def _split_on_ifexp(self, st):
+        """a call-free assignment statement holding one conditional expression anywhere (e.g. in a subscript) becomes an if/else of two statements"""
+        ifes = []
+
+        def rec(n):
+            if isinstance(n, (ast.Lambda, ast.ListComp, ast.GeneratorExp, ast.DictComp, ast.SetComp)):
+                return
+            if isinstance(n, ast.IfExp):
+                ifes.append(n)
+                return
+            for c in ast.iter_child_nodes(n):
+                rec(c)
+        rec(st)
+        if len(ifes) != 1 or any(isinstance(x, ast.Call) for x in ast.walk(st) if not any(x is y for y in ast.walk(ifes[0]))):
+            return None
+        ife = ifes[0]
+
+        def variant(val):
+            class R(ast.NodeTransformer):
+                def visit_IfExp(self, n):
+                    return copy.deepcopy(val) if n is ife else self.generic_visit(n)
+            # deep-copying the statement would lose the identity of `ife`: rebuild by transforming a copy whose IfExp is located structurally
+            c = copy.deepcopy(st)
+            target = [x for x in ast.walk(c) if isinstance(x, ast.IfExp) and ast.dump(x) == ast.dump(ife)][0]
+
+            class R2(ast.NodeTransformer):
+                def visit_IfExp(self, n):
+                    return copy.deepcopy(val) if n is target else self.generic_visit(n)
+            return R2().visit(c)
+        new = ast.If(test=copy.deepcopy(ife.test), body=[variant(ife.body)], orelse=[variant(ife.orelse)])
+        return self.visit(_loc_shallow(new, st))
+
+    def visit_Match(self, st):
+        """match E: case "a": A; case "b" | "c": B; case _: C   ->   if E == "a": A elif E in ("b", "c"): B else: C      (literal / or-of-literal / capture-free
+        patterns only; the subject must be a pure access path because it is repeated)"""
+        subj = st.subject
+        if any(isinstance(x, (ast.Call, ast.Lambda, ast.NamedExpr, ast.Await, ast.Yield)) for x in ast.walk(subj)):
+            self.generic_visit(st)
+            return st
+
+        def lits(p):
+            if isinstance(p, ast.MatchValue) and isinstance(p.value, (ast.Constant, ast.Attribute)):
+                return [p.value]
+            if isinstance(p, ast.MatchSingleton):
+                return [ast.Constant(value=p.value)]
+            if isinstance(p, ast.MatchOr):
+                out = []
+                for q in p.patterns:
+                    l = lits(q)
+                    if l is None:
+                        return None
+                    out += l
+                return out
+            return None
+        chain = None
+        arms = []
+        for c in st.cases:
+            if isinstance(c.pattern, ast.MatchAs) and c.pattern.pattern is None and c.pattern.name is None and c.guard is None:
+                arms.append((None, c.body))
+                break
+            l = lits(c.pattern)
+            if l is None:
+                self.generic_visit(st)
+                return st
+            if len(l) == 1:
+                single = isinstance(l[0], ast.Constant) and l[0].value in (None, True, False)
+                test = ast.Compare(left=copy.deepcopy(subj), ops=[ast.Is() if single else ast.Eq()], comparators=[l[0]])
+            else:
+                test = ast.Compare(left=copy.deepcopy(subj), ops=[ast.In()], comparators=[ast.Tuple(elts=l, ctx=ast.Load())])
+            if c.guard is not None:
+                test = ast.BoolOp(op=ast.And(), values=[test, c.guard])
+            arms.append((test, c.body))
+        orelse = []
+        for test, body in reversed(arms):
+            if test is None:
+                orelse = body
+            else:
+                orelse = [ast.If(test=test, body=body, orelse=orelse)]
+        if not orelse:
+            return ast.copy_location(ast.Pass(), st)
+        res = []
+        for o in orelse:
+            r = self.visit(_loc_shallow(o, st))
+            res += r if isinstance(r, list) else [r]
+        return res
+
+    def visit_If(self, st):
+        # if (x := E) <cmp> ...:   ->   x = E; if x <cmp> ...:      (one walrus, evaluated first in the test)
+        w = [x for x in ast.walk(st.test) if isinstance(x, ast.NamedExpr)]
+        if len(w) == 1 and isinstance(w[0].target, ast.Name) and self._evaluated_first(st.test, w[0]):
+            nm = w[0]
+
+            class R(ast.NodeTransformer):
+                def visit_NamedExpr(self, n):
+                    return ast.copy_location(ast.Name(id=nm.target.id, ctx=ast.Load()), n) if n is nm else n
+            pre = _loc(ast.Assign(targets=[ast.Name(id=nm.target.id, ctx=ast.Store())], value=nm.value), st)
+            st.test = R().visit(st.test)
+            out = []
+            for o in (pre, st):
+                r = self.visit(o) if o is pre else self._visit_if_plain(o)
+                out += r if isinstance(r, list) else [r]
+            return out
+        return self._visit_if_plain(st)
+
+    def _visit_if_plain(self, st):
+        # if A and B: X else: Y   with an effectful call in B (evaluated only when A holds)   ->   if A: (if B: X else: Y) else: Y
+        # if A or  B: X else: Y                                                                ->   if A: X else: (if B: X else: Y)
+        t = st.test
+        if isinstance(t, ast.BoolOp) and len(t.values) >= 2 and any(self._effectful(v) for v in t.values[1:]):
+            first = t.values[0]
+            rest = t.values[1] if len(t.values) == 2 else ast.BoolOp(op=t.op, values=t.values[1:])
+            if isinstance(t.op, ast.And):
+                inner = ast.If(test=rest, body=st.body, orelse=copy.deepcopy(st.orelse))
+                new = ast.If(test=first, body=[_loc_shallow(inner, st)], orelse=st.orelse)
+            else:
+                inner = ast.If(test=rest, body=copy.deepcopy(st.body), orelse=st.orelse)
+                new = ast.If(test=first, body=st.body, orelse=[_loc_shallow(inner, st)])
+            return self.visit_If(_loc_shallow(new, st))
+        self.generic_visit(st)
+        return st
+
+    @staticmethod
+    def _effectful(e):
+        for x in ast.walk(e):
+            if isinstance(x, ast.Call) and not (isinstance(x.func, ast.Name) and x.func.id in ("isinf", "len", "isinstance", "float", "str", "int", "min", "max", "abs", "bool", "set", "list", "tuple", "sum", "any", "all", "sorted")):
+                return True
+        return False
+
+    @staticmethod
+    def _evaluated_first(test, nm):
+        """the walrus is the leftmost-evaluated sub-expression of the test (so hoisting it does not reorder evaluation)"""
+        n = test
+        while True:
+            if n is nm:
+                return True
+            if isinstance(n, ast.BoolOp):
+                n = n.values[0]
+            elif isinstance(n, ast.Compare):
+                n = n.left
+            elif isinstance(n, ast.UnaryOp):
+                n = n.operand
+            elif isinstance(n, ast.Call) and n.args and not isinstance(n.func, ast.Call):
+                if any(isinstance(x, ast.Call) for x in ast.walk(n.func)):
+                    return False
+                n = n.args[0]
+            elif isinstance(n, ast.Attribute):
+                n = n.value
+            elif isinstance(n, ast.Subscript):
+                n = n.value
+            else:
+                return False
 
     def visit_For(self, st):
         it = st.iter
@@ -469,9 +657,61 @@ def _split_tuple_locals(fn):
     ast.fix_missing_locations(fn)
 
 
+def _inline_nested_functions(fn):
+    """a nested `def g(params): return <expr>` (a local closure naming an expression) is expanded at its calls inside fn and, when passed as a value,
+    replaced by the equivalent lambda; the def goes"""
+    nested = {}
+    for st in fn.body:
+        if isinstance(st, ast.FunctionDef) and not st.decorator_list and not st.args.vararg and not st.args.kwarg and not st.args.kwonlyargs and not st.args.defaults:
+            body = [s for s in st.body if not (isinstance(s, ast.Expr) and isinstance(s.value, ast.Constant))]
+            if len(body) == 1 and isinstance(body[0], ast.Return) and body[0].value is not None and not any(isinstance(x, (ast.Yield, ast.Await)) for x in ast.walk(body[0].value)):
+                nested[st.name] = (st, [a.arg for a in st.args.args], body[0].value)
+    if not nested:
+        return
+    # names rebound elsewhere in fn are not safe
+    for x in ast.walk(fn):
+        if isinstance(x, ast.Name) and isinstance(x.ctx, (ast.Store, ast.Del)) and x.id in nested:
+            nested.pop(x.id, None)
+    if not nested:
+        return
+    funcs = {id(x.func) for x in ast.walk(fn) if isinstance(x, ast.Call) and isinstance(x.func, ast.Name)}
+
+    class T(ast.NodeTransformer):
+        def visit_FunctionDef(self, n):
+            if n is not fn and n.name in nested and nested[n.name][0] is n:
+                return ast.copy_location(ast.Pass(), n)
+            self.generic_visit(n)
+            return n
+
+        def visit_Call(self, n):
+            self.generic_visit(n)
+            if isinstance(n.func, ast.Name) and n.func.id in nested and not n.keywords and len(n.args) == len(nested[n.func.id][1]):
+                st, params, expr = nested[n.func.id]
+                mapping = dict(zip(params, n.args))
+                for p, a in mapping.items():
+                    uses = sum(1 for y in ast.walk(expr) if isinstance(y, ast.Name) and y.id == p)
+                    if uses > 1 and any(isinstance(y, ast.Call) for y in ast.walk(a)):
+                        return n
+                return _loc(_NameSubst(mapping).visit(copy.deepcopy(expr)), n)
+            return n
+
+        def visit_Name(self, n):
+            if isinstance(n.ctx, ast.Load) and n.id in nested and id(n) not in funcs:
+                st, params, expr = nested[n.id]
+                return _loc(ast.Lambda(args=ast.arguments(posonlyargs=[], args=[ast.arg(arg=p) for p in params], kwonlyargs=[], kw_defaults=[], defaults=[]), body=copy.deepcopy(expr)), n)
+            return n
+    T().visit(fn)
+    # if a call could not be expanded the def must stay: put it back
+    left = {x.func.id for x in ast.walk(fn) if isinstance(x, ast.Call) and isinstance(x.func, ast.Name) and x.func.id in nested}
+    for name in left:
+        fn.body.insert(0, nested[name][0])
+    ast.fix_missing_locations(fn)
+
+
 def desugar_function(fn):
     """rewrite fn.body in place; returns True if something changed"""
     before = ast.dump(fn)
+    _inline_nested_functions(fn)
     _bound_method_locals(fn)
     _split_tuple_locals(fn)
     _compose_comprehensions(fn)
@@ -762,49 +1002,478 @@ def _targets_of_param_loops(body, genargs):
 
 
 def _inline_expression_functions(P, anchors):
-    """a private module-level function whose body is a single `return <expression of its parameters>` is an expression macro: calls to it (by bare name,
-    in the same module) are replaced by that expression"""
+    """a module-level function that is not part of the pinned API and whose body is a single `return <expression of its parameters>` is an expression
+    macro: calls to it -- by bare name in its own module or after `from mod import f`, or as `mod.f(...)` -- are replaced by that expression; passed as a
+    value it becomes the equivalent lambda"""
+    macros_by_mod = {}
     for m in P.modules.values():
         macros = {}
         for st in m.tree.body:
             if isinstance(st, ast.FunctionDef) and st.name not in anchors and not st.decorator_list and not st.args.vararg and not st.args.kwarg and not st.args.kwonlyargs:
                 body = [s for s in st.body if not (isinstance(s, ast.Expr) and isinstance(s.value, ast.Constant))]
                 if len(body) == 1 and isinstance(body[0], ast.Return) and body[0].value is not None:
-                    params = [a.arg for a in st.args.args]
-                    free = {x.id for x in ast.walk(body[0].value) if isinstance(x, ast.Name)} - set(params)
-                    # free names must be module-level / builtins (not locals): true for a one-statement function
                     if not any(isinstance(x, (ast.Lambda, ast.Yield, ast.Await)) for x in ast.walk(body[0].value)):
-                        macros[st.name] = (params, st.args.defaults, body[0].value)
-        # names referenced other than as a call (passed around) disable the macro
-        if not macros:
+                        macros[st.name] = ([a.arg for a in st.args.args], st.args.defaults, body[0].value)
+        macros_by_mod[m.name] = macros
+    if not any(macros_by_mod.values()):
+        return
+    for m in P.modules.values():
+        table = dict(macros_by_mod.get(m.name, {}))
+        mods = {}
+        for st in m.tree.body:
+            if isinstance(st, ast.ImportFrom):
+                src = st.module or ""
+                if st.level:
+                    base = m.name.split(".")
+                    if not m.path.endswith("__init__.py"):
+                        base = base[:-1]
+                    base = base[: len(base) - (st.level - 1)]
+                    src = ".".join(base + ([st.module] if st.module else []))
+                for a in st.names:
+                    if a.name == "*":
+                        for k, v in macros_by_mod.get(src, {}).items():
+                            table.setdefault(k, v)
+                    elif a.name in macros_by_mod.get(src, {}):
+                        table[a.asname or a.name] = macros_by_mod[src][a.name]
+                    elif macros_by_mod.get(src + "." + a.name):
+                        mods[a.asname or a.name] = src + "." + a.name
+            elif isinstance(st, ast.Import):
+                for a in st.names:
+                    if macros_by_mod.get(a.name) and (a.asname or "." not in a.name):
+                        mods[a.asname or a.name] = a.name
+        if not table and not mods:
             continue
-        for x in ast.walk(m.tree):
-            if isinstance(x, ast.Call) and isinstance(x.func, ast.Name) and x.func.id in macros:
-                x._macro_call = True
-        funcs = {id(x.func) for x in ast.walk(m.tree) if isinstance(x, ast.Call) and isinstance(x.func, ast.Name)}
-        for x in ast.walk(m.tree):
-            if isinstance(x, ast.Name) and isinstance(x.ctx, ast.Load) and x.id in macros and id(x) not in funcs:
-                macros.pop(x.id, None)
+        funcs = {id(x.func) for x in ast.walk(m.tree) if isinstance(x, ast.Call)}
+
+        def macro_for(f):
+            if isinstance(f, ast.Name) and f.id in table:
+                return table[f.id]
+            if isinstance(f, ast.Attribute) and isinstance(f.value, ast.Name) and f.value.id in mods and f.attr in macros_by_mod.get(mods[f.value.id], {}):
+                return macros_by_mod[mods[f.value.id]][f.attr]
+            return None
 
         class T(ast.NodeTransformer):
             def visit_Call(self, n):
                 self.generic_visit(n)
-                if isinstance(n.func, ast.Name) and n.func.id in macros and not n.keywords:
-                    params, defaults, expr = macros[n.func.id]
-                    if len(n.args) == len(params) and all(not isinstance(a, ast.Starred) for a in n.args):
-                        # arguments used more than once must be cheap and pure
-                        mapping = dict(zip(params, n.args))
-                        for p, a in mapping.items():
+                mac = macro_for(n.func)
+                if mac is not None and not any(isinstance(a, ast.Starred) for a in n.args):
+                    params, defaults, expr = mac
+                    bound = dict(zip(params, n.args))
+                    ok = len(n.args) <= len(params)
+                    for k in n.keywords:
+                        if k.arg in params and k.arg not in bound:
+                            bound[k.arg] = k.value
+                        else:
+                            ok = False
+                    for pn, d in zip(params[len(params) - len(defaults):], defaults):
+                        bound.setdefault(pn, d)
+                    if ok and set(bound) == set(params):
+                        for p, a in bound.items():
                             uses = sum(1 for y in ast.walk(expr) if isinstance(y, ast.Name) and y.id == p)
                             if uses > 1 and any(isinstance(y, ast.Call) for y in ast.walk(a)):
                                 return n
-                        return _loc(_NameSubst(mapping).visit(copy.deepcopy(expr)), n)
+                        return _loc(_NameSubst(bound).visit(copy.deepcopy(expr)), n)
                 return n
+
+            def visit_Name(self, n):
+                # the function passed as a value (key=_by_priority): the equivalent lambda
+                if isinstance(n.ctx, ast.Load) and n.id in table and id(n) not in funcs:
+                    params, defaults, expr = table[n.id]
+                    if not defaults:
+                        lam = ast.Lambda(args=ast.arguments(posonlyargs=[], args=[ast.arg(arg=p) for p in params], kwonlyargs=[], kw_defaults=[], defaults=[]), body=copy.deepcopy(expr))
+                        return _loc(lam, n)
+                return n
+        own = macros_by_mod.get(m.name, {})
         for st in m.tree.body:
-            if isinstance(st, ast.FunctionDef) and st.name in macros:
+            if isinstance(st, ast.FunctionDef) and st.name in own:
+                continue
+            if isinstance(st, (ast.Import, ast.ImportFrom)):
                 continue
             T().visit(st)
         ast.fix_missing_locations(m.tree)
+
+
+def _module_constants(P):
+    """module-level `NAME = <literal>` (never re-bound in that module) and class-level constants referenced through the class name: uses by bare name in the
+    defining module, by `from mod import NAME` elsewhere, and as `mod.NAME`, are replaced by the literal"""
+    consts = {}          # module name -> {NAME: node}
+    for m in P.modules.values():
+        cnt, val = {}, {}
+        for st in m.tree.body:
+            for t in (st.targets if isinstance(st, ast.Assign) else [st.target] if isinstance(st, (ast.AugAssign, ast.AnnAssign)) else []):
+                for x in ast.walk(t):
+                    if isinstance(x, ast.Name):
+                        cnt[x.id] = cnt.get(x.id, 0) + 1
+            if isinstance(st, ast.Assign) and len(st.targets) == 1 and isinstance(st.targets[0], ast.Name) and isinstance(st.value, (ast.Constant, ast.Tuple, ast.List, ast.Dict, ast.Set)) \
+                    and st.targets[0].id.isupper():
+                v_ = st.value
+                if not _is_literal(v_):
+                    # a table built from constants defined above it
+                    v_ = _NameSubst({k: x for k, x in val.items() if cnt.get(k) == 1}).visit(copy.deepcopy(v_))
+                if _is_literal(v_):
+                    val[st.targets[0].id] = v_
+        for x in ast.walk(m.tree):
+            if isinstance(x, ast.Global):
+                for n in x.names:
+                    cnt[n] = cnt.get(n, 0) + 5
+        consts[m.name] = {k: v for k, v in val.items() if cnt.get(k) == 1}
+    for m in P.modules.values():
+        table = dict(consts.get(m.name, {}))
+        mods = {}
+        for st in m.tree.body:
+            if isinstance(st, ast.ImportFrom):
+                src = st.module or ""
+                if st.level:
+                    base = m.name.split(".")
+                    if not m.path.endswith("__init__.py"):
+                        base = base[:-1]
+                    base = base[: len(base) - (st.level - 1)]
+                    src = ".".join(base + ([st.module] if st.module else []))
+                for a in st.names:
+                    if a.name == "*":
+                        for k, v in consts.get(src, {}).items():
+                            table.setdefault(k, v)
+                    elif a.name in consts.get(src, {}):
+                        table[a.asname or a.name] = consts[src][a.name]
+                    elif (src + "." + a.name) in consts:
+                        mods[a.asname or a.name] = src + "." + a.name
+            elif isinstance(st, ast.Import):
+                for a in st.names:
+                    if a.name in consts and (a.asname or "." not in a.name):
+                        mods[a.asname or a.name] = a.name
+        if not table and not mods:
+            continue
+        local_stores = {}
+
+        class T(ast.NodeTransformer):
+            def visit_FunctionDef(self, fn):
+                shadow = {a.arg for a in fn.args.args} | {x.id for x in ast.walk(fn) if isinstance(x, ast.Name) and isinstance(x.ctx, ast.Store)}
+                old = local_stores.get("s", set())
+                local_stores["s"] = old | shadow
+                self.generic_visit(fn)
+                local_stores["s"] = old
+                return fn
+
+            def visit_Name(self, n):
+                if isinstance(n.ctx, ast.Load) and n.id in table and n.id not in local_stores.get("s", set()):
+                    return _loc(copy.deepcopy(table[n.id]), n)
+                return n
+
+            def visit_Attribute(self, n):
+                if isinstance(n.ctx, ast.Load) and isinstance(n.value, ast.Name) and n.value.id in mods and n.attr in consts.get(mods[n.value.id], {}):
+                    return _loc(copy.deepcopy(consts[mods[n.value.id]][n.attr]), n)
+                self.generic_visit(n)
+                return n
+        for st in m.tree.body:
+            if isinstance(st, (ast.FunctionDef, ast.ClassDef)):
+                T().visit(st)
+        ast.fix_missing_locations(m.tree)
+
+
+def _trivial_members(P, anchors):
+    """a private property, or method, whose body is a single `return <expression over self and its parameters>` names an expression: `X.member` /
+    `X.member(args)` is replaced by that expression with self := X.  For receivers other than self the member name must be defined by exactly one class
+    and never assigned."""
+    members = {}        # name -> [(ClassInfo, fn, expr, is_property, params)]
+    for ci in P.classes.values():
+        for name, fn in ci.methods.items():
+            if name in anchors or name.startswith("__"):
+                continue
+            params = [a.arg for a in fn.args.args]
+            decos = [d.id for d in fn.decorator_list if isinstance(d, ast.Name)]
+            if len(decos) != len(fn.decorator_list) or any(d != "property" for d in decos) or params[:1] != ["self"] or fn.args.vararg or fn.args.kwarg \
+                    or fn.args.kwonlyargs or fn.args.defaults or ("property" in decos and params != ["self"]):
+                continue
+            body = [s for s in fn.body if not (isinstance(s, ast.Expr) and isinstance(s.value, ast.Constant))]
+            if len(body) != 1 or not isinstance(body[0], ast.Return) or body[0].value is None:
+                continue
+            e = body[0].value
+            if any(isinstance(x, (ast.Lambda, ast.Yield, ast.Await, ast.NamedExpr)) for x in ast.walk(e)):
+                continue
+            if any(isinstance(x, ast.Attribute) and x.attr == name for x in ast.walk(e)):
+                continue
+            members.setdefault(name, []).append((ci, fn, e, "property" in decos, params[1:]))
+    if not members:
+        return
+    assigned = set()
+    for m in P.modules.values():
+        for x in ast.walk(m.tree):
+            if isinstance(x, ast.Attribute) and isinstance(x.ctx, (ast.Store, ast.Del)):
+                assigned.add(x.attr)
+    unique = {n: v[0] for n, v in members.items() if len(v) == 1 and n not in assigned and sum(1 for c in P.classes.values() if n in c.methods) == 1}
+
+    def expand(ci_use):
+        class T(ast.NodeTransformer):
+            def _expr_for(self, recv, name, call, args=()):
+                cand = None
+                if isinstance(recv, ast.Name) and recv.id == "self" and ci_use is not None:
+                    for c in P.mro(ci_use.name):
+                        for (ci, fn, e, isprop, ps) in members.get(name, []):
+                            if ci.name == c:
+                                cand = (ci, fn, e, isprop, ps)
+                                break
+                        if cand or (c in P.classes and name in P.classes[c].methods):
+                            break
+                elif name in unique and not any(isinstance(x, ast.Call) for x in ast.walk(recv)):
+                    cand = unique[name]
+                if cand is None or cand[3] == call or len(cand[4]) != len(args):
+                    return None
+                mapping = {"self": recv}
+                for p_, a_ in zip(cand[4], args):
+                    uses = sum(1 for y in ast.walk(cand[2]) if isinstance(y, ast.Name) and y.id == p_)
+                    if uses > 1 and any(isinstance(y, ast.Call) for y in ast.walk(a_)):
+                        return None
+                    mapping[p_] = a_
+                return _NameSubst(mapping).visit(copy.deepcopy(cand[2]))
+
+            def visit_Call(self, n):
+                self.generic_visit(n)
+                if isinstance(n.func, ast.Attribute) and not n.keywords and n.func.attr in members and not any(isinstance(a, ast.Starred) for a in n.args):
+                    e = self._expr_for(n.func.value, n.func.attr, True, n.args)
+                    if e is not None:
+                        return _loc(e, n)
+                return n
+
+            def visit_Attribute(self, n):
+                self.generic_visit(n)
+                if isinstance(n.ctx, ast.Load) and n.attr in members:
+                    e = self._expr_for(n.value, n.attr, False)
+                    if e is not None:
+                        return _loc(e, n)
+                return n
+        return T()
+    for _ in range(3):          # members defined in terms of other members
+        for ci in P.classes.values():
+            t = expand(ci)
+            for fn in ci.methods.values():
+                t.visit(fn)
+                ast.fix_missing_locations(fn)
+        for f in P.functions.values():
+            expand(None).visit(f)
+            ast.fix_missing_locations(f)
+
+
+def _inline_foreign_helpers(P, anchors):
+    """`X.helper(args)` as a statement, where `helper` is a private method defined by exactly one class (a small mutator such as Server.start_serving), with a
+    straight-line body and no return value: replaced by the body with self := X and parameters := arguments, so that the attribute writes are seen where
+    they happen"""
+    defs = {}
+    for ci in P.classes.values():
+        for name, fn in ci.methods.items():
+            defs.setdefault(name, []).append((ci, fn))
+    cands = {}
+    for name, lst in defs.items():
+        if len(lst) != 1 or name in anchors or name.startswith("__"):
+            continue
+        ci, fn = lst[0]
+        if fn.decorator_list or fn.args.vararg or fn.args.kwarg or fn.args.kwonlyargs:
+            continue
+        body = [s for s in fn.body if not (isinstance(s, ast.Expr) and isinstance(s.value, ast.Constant))]
+        if not body or any(isinstance(x, (ast.Return, ast.Yield, ast.YieldFrom, ast.For, ast.While, ast.Try, ast.With, ast.Lambda, ast.FunctionDef)) for s in body for x in ast.walk(s)):
+            continue
+        if _stores(body):
+            continue            # helper locals would need renaming: keep it simple
+        cands[name] = (ci, fn, body)
+    if not cands:
+        return
+
+    def rewrite(body):
+        out = []
+        for st in body:
+            for f in ("body", "orelse", "finalbody"):
+                v = getattr(st, f, None)
+                if isinstance(v, list) and v and isinstance(v[0], ast.stmt):
+                    setattr(st, f, rewrite(v))
+            new = None
+            if isinstance(st, ast.Expr) and isinstance(st.value, ast.Call) and isinstance(st.value.func, ast.Attribute) and st.value.func.attr in cands:
+                call = st.value
+                recv = call.func.value
+                ci, h, hbody = cands[call.func.attr]
+                if not (isinstance(recv, ast.Name) and recv.id == "self") and not any(isinstance(x, ast.Call) for x in ast.walk(recv)):
+                    params = [a.arg for a in h.args.args][1:]
+                    bound = dict(zip(params, call.args))
+                    ok = len(call.args) <= len(params)
+                    for k in call.keywords:
+                        if k.arg in params and k.arg not in bound:
+                            bound[k.arg] = k.value
+                        else:
+                            ok = False
+                    for pn, d in zip(params[len(params) - len(h.args.defaults):], h.args.defaults):
+                        bound.setdefault(pn, d)
+                    if ok and set(bound) == set(params) and all(isinstance(a, (ast.Constant, ast.Name, ast.Attribute)) or
+                                                                 sum(1 for s in hbody for x in ast.walk(s) if isinstance(x, ast.Name) and x.id == p) <= 1 for p, a in bound.items()):
+                        mapping = dict(bound)
+                        mapping["self"] = recv
+                        new = [_loc(_NameSubst(mapping).visit(copy.deepcopy(s)), st) for s in hbody]
+            out += new if new is not None else [st]
+        return out
+    for ci, fn in list(P.all_functions()):
+        fn.body = rewrite(fn.body)
+        ast.fix_missing_locations(fn)
+    # a helper all of whose uses were expanded is no longer part of the model
+    still = set()
+    for m in P.modules.values():
+        for x in ast.walk(m.tree):
+            if isinstance(x, ast.Attribute) and x.attr in cands:
+                still.add(x.attr)
+    for name, (ci, fn, body) in cands.items():
+        if name not in still and name in ci.methods:
+            ci.node.body.remove(fn)
+            del ci.methods[name]
+
+
+def _canonical_call_arguments(P):
+    """keyword arguments are listed in alphabetical order (their order carries no meaning); a call by bare name to a package-level function that is defined
+    once passes as many arguments positionally as its keywords allow (`random_choice(array=a, probs=p)` is `random_choice(a, p)`)"""
+    byname = {}
+    for (mod, name), fn in P.functions.items():
+        byname.setdefault(name, []).append(fn)
+    single = {n: v[0] for n, v in byname.items() if len(v) == 1 and not v[0].args.vararg and not v[0].args.kwarg and not v[0].args.kwonlyargs and n not in P.classes}
+    for m in P.modules.values():
+        for n in ast.walk(m.tree):
+            if not isinstance(n, ast.Call):
+                continue
+            if isinstance(n.func, ast.Name) and n.func.id in single and n.keywords and all(k.arg for k in n.keywords) and not any(isinstance(a, ast.Starred) for a in n.args):
+                params = [a.arg for a in single[n.func.id].args.args]
+                kw = {k.arg: k for k in n.keywords}
+                i = len(n.args)
+                while i < len(params) and params[i] in kw:
+                    n.args.append(kw.pop(params[i]).value)
+                    i += 1
+                n.keywords = [k for k in n.keywords if k.arg in kw]
+            if len(n.keywords) > 1 and all(k.arg for k in n.keywords):
+                n.keywords.sort(key=lambda k: k.arg)
+
+
+def _inline_wrappers(P, anchors):
+    """a private method whose whole body is one call (a forwarding wrapper, possibly with *args) is expanded at its call sites: on `self` through the MRO,
+    on any other receiver when exactly one class defines the name.  Afterwards string concatenations of constants are folded and getattr(X, "name") becomes
+    X.name, so that `notify("accept", a, b)` -> `getattr(T, "change_state_" + event)(*args)` reads `T.change_state_accept(a, b)` again."""
+    def wrapper_of(fn):
+        if fn.decorator_list or fn.args.kwonlyargs or fn.args.kwarg or fn.args.defaults:
+            return None
+        body = [s for s in fn.body if not (isinstance(s, ast.Expr) and isinstance(s.value, ast.Constant))]
+        if len(body) != 1 or not isinstance(body[0], (ast.Expr, ast.Return)) or not isinstance(body[0].value, ast.Call):
+            return None
+        params = [a.arg for a in fn.args.args]
+        if params[:1] != ["self"]:
+            return None
+        va = fn.args.vararg.arg if fn.args.vararg else None
+        call = body[0].value
+        # the vararg may only be forwarded as *args in calls
+        if va is not None:
+            for x in ast.walk(call):
+                if isinstance(x, ast.Name) and x.id == va:
+                    pass
+            stars = [x for x in ast.walk(call) if isinstance(x, ast.Starred) and isinstance(x.value, ast.Name) and x.value.id == va]
+            uses = [x for x in ast.walk(call) if isinstance(x, ast.Name) and x.id == va]
+            if len(stars) != len(uses):
+                return None
+        if any(isinstance(x, (ast.Lambda, ast.Yield, ast.Await, ast.NamedExpr)) for x in ast.walk(call)):
+            return None
+        return params[1:], va, call, isinstance(body[0], ast.Return)
+
+    defs = {}
+    for ci in P.classes.values():
+        for name, fn in ci.methods.items():
+            defs.setdefault(name, []).append((ci, fn))
+    wrappers = {}
+    for name, lst in defs.items():
+        if name in anchors or name.startswith("__"):
+            continue
+        ws = [(ci, fn, wrapper_of(fn)) for ci, fn in lst]
+        if all(w is not None for _, _, w in ws):
+            wrappers[name] = ws
+    if not wrappers:
+        return
+
+    class Fold(ast.NodeTransformer):
+        def visit_BinOp(self, n):
+            self.generic_visit(n)
+            if isinstance(n.op, ast.Add) and isinstance(n.left, ast.Constant) and isinstance(n.right, ast.Constant) and isinstance(n.left.value, str) and isinstance(n.right.value, str):
+                return ast.copy_location(ast.Constant(value=n.left.value + n.right.value), n)
+            return n
+
+        def visit_Call(self, n):
+            self.generic_visit(n)
+            if isinstance(n.func, ast.Name) and n.func.id == "getattr" and len(n.args) == 2 and not n.keywords and isinstance(n.args[1], ast.Constant) \
+                    and isinstance(n.args[1].value, str) and n.args[1].value.isidentifier():
+                return ast.copy_location(ast.Attribute(value=n.args[0], attr=n.args[1].value, ctx=ast.Load()), n)
+            return n
+
+    def expand_in(ci_use, fn):
+        changed = [False]
+
+        class T(ast.NodeTransformer):
+            def visit_Call(self, n):
+                self.generic_visit(n)
+                f = n.func
+                if not (isinstance(f, ast.Attribute) and f.attr in wrappers) or n.keywords or any(isinstance(a, ast.Starred) for a in n.args):
+                    return n
+                cand = None
+                if isinstance(f.value, ast.Name) and f.value.id == "self" and ci_use is not None:
+                    for c in P.mro(ci_use.name):
+                        hit = [w for w in wrappers[f.attr] if w[0].name == c]
+                        if hit:
+                            cand = hit[0]
+                            break
+                        if c in P.classes and f.attr in P.classes[c].methods:
+                            break
+                elif len(wrappers[f.attr]) == 1 and len(defs[f.attr]) == 1 and not any(isinstance(x, ast.Call) for x in ast.walk(f.value)):
+                    cand = wrappers[f.attr][0]
+                if cand is None or cand[1] is fn:
+                    return n
+                params, va, call, is_ret = cand[2]
+                if len(n.args) < len(params) or (va is None and len(n.args) != len(params)):
+                    return n
+                mapping = {"self": f.value}
+                for p_, a_ in zip(params, n.args):
+                    uses = sum(1 for y in ast.walk(call) if isinstance(y, ast.Name) and y.id == p_)
+                    if uses > 1 and any(isinstance(y, ast.Call) for y in ast.walk(a_)):
+                        return n
+                    mapping[p_] = a_
+                extra = n.args[len(params):]
+                # parameters first (the wrapper's own names), the forwarded extra arguments afterwards (they are the caller's expressions)
+                new = _NameSubst(mapping).visit(copy.deepcopy(call))
+                if va is not None:
+                    class S(ast.NodeTransformer):
+                        def visit_Call(self, c):
+                            self.generic_visit(c)
+                            args = []
+                            for a in c.args:
+                                if isinstance(a, ast.Starred) and isinstance(a.value, ast.Name) and a.value.id == va:
+                                    args += [copy.deepcopy(e) for e in extra]
+                                else:
+                                    args.append(a)
+                            c.args = args
+                            return c
+                    new = S().visit(new)
+                changed[0] = True
+                return _loc(Fold().visit(new), n)
+        T().visit(fn)
+        ast.fix_missing_locations(fn)
+        return changed[0]
+    for _ in range(4):
+        any_change = False
+        for ci in P.classes.values():
+            for fn in ci.methods.values():
+                any_change = expand_in(ci, fn) or any_change
+        for fn in P.functions.values():
+            any_change = expand_in(None, fn) or any_change
+        if not any_change:
+            break
+    # wrappers that are no longer referenced leave the model
+    still = set()
+    for m in P.modules.values():
+        for x in ast.walk(m.tree):
+            if isinstance(x, ast.Attribute) and x.attr in wrappers:
+                still.add(x.attr)
+    for name, ws in wrappers.items():
+        if name not in still:
+            for ci, fn, _ in ws:
+                if name in ci.methods:
+                    ci.node.body.remove(fn)
+                    del ci.methods[name]
 
 
 def normalise_program(P):
@@ -820,7 +1489,12 @@ def normalise_program(P):
             t = _SelfConst(table)
             t.visit(fn)
             ast.fix_missing_locations(fn)
-    _inline_expression_functions(P, ANCHOR_METHODS | {k[1] for k in P.functions if not k[1].startswith("_")})
+    _canonical_call_arguments(P)
+    _module_constants(P)
+    _inline_wrappers(P, ANCHOR_METHODS)
+    _trivial_members(P, ANCHOR_METHODS)
+    _inline_foreign_helpers(P, ANCHOR_METHODS)
+    _inline_expression_functions(P, ANCHOR_METHODS)
     _specialise_helpers(P, ANCHOR_METHODS)
     for m in P.modules.values():
         for n in list(ast.walk(m.tree)):
